@@ -2,6 +2,7 @@
   C05  Session id renewed at every login redirect; cookie host-locked and protected.
 -/
 import AuthProofs.Ladder
+import AuthProofs.CodeEquivOidc
 import AuthProofs.StrLemmas
 import AuthModel.Generated.Facts
 import AuthModel.Config
@@ -59,6 +60,43 @@ theorem name_parts_match_source :
 theorem logout_expires_cookie (cfg : Cfg) (uri : Str) :
     logoutResp cfg uri = redirectWithCookie uri (setCookie (cookieName cfg) (B "deleted") (some 0)) := rfl
 
+/-! ### The cookie functions as translated from /repo (AuthModel/Generated/CodeOidc.lean, CodeHttp.lean) -/
+
+/-- `getCookieName` AS TRANSLATED FROM THE GO SOURCE on this run never panics and returns a name that starts with
+    `__Host-`, for every configuration (a nil one included). -/
+theorem code_cookie_name_host_prefix (env : Go.Env) (c : Pb.OIDCConfig) :
+    ∃ n, Code.getCookieName env c = .ok n ∧ hasPrefix n (B "__Host-") = true := by
+  let cfg : Cfg :=
+    { clientId := [], clientSecret := [], callbackUri := [], cbScheme := [], cbHost := [], cbPort := [],
+      cbPath := [], authUri := [], tokenUri := [], scopes := [], cookiePrefix := c.GetCookieNamePrefix, idHeader := [],
+      idPreamble := [], access := none, logout := none }
+  exact ⟨_, code_getCookieName env c cfg rfl, cookie_name_host_prefix cfg⟩
+
+/-- `generateSetCookieHeader` (with `getCookieDirectives` and `EncodeCookieHeader`) AS TRANSLATED never panics and
+    builds exactly `name=value; HttpOnly; Secure; SameSite=Lax; Path=/`, followed by `; Max-Age=0` for the zero timeout
+    the logout answer uses and by nothing for the negative timeout the login redirect uses: no Domain, whatever the
+    name and the value are. -/
+theorem code_set_cookie_shape (env : Go.Env) (name value : Str) :
+    Code.generateSetCookieHeader env name value (-1) =
+      .ok (name ++ [61] ++ value ++ B "; HttpOnly; Secure; SameSite=Lax; Path=/") ∧
+    Code.generateSetCookieHeader env name value 0 =
+      .ok (name ++ [61] ++ value ++ B "; HttpOnly; Secure; SameSite=Lax; Path=/; Max-Age=0") := by
+  have h := set_cookie_shape name value
+  constructor
+  · rw [code_setCookie, ← h.1]; rfl
+  · rw [code_setCookie, ← h.2]; rfl
+
+/-- `getSessionIDFromCookie` (with `DecodeCookiesHeader`) AS TRANSLATED never panics - whatever bytes the Cookie
+    header holds - and returns what the model's `sessionIdFromCookie` returns: the value of the LAST well-formed
+    `name=value` item whose name is the filter's cookie name. -/
+theorem code_session_id_from_cookie (env : Go.Env) (headers : Go.Map) (c : Pb.OIDCConfig) (cfg : Cfg)
+    (h : cfg.cookiePrefix = c.GetCookieNamePrefix) :
+    Code.getSessionIDFromCookie env headers c = .ok (sessionIdFromCookie cfg (Go.Map.get headers (B "cookie"))) :=
+  code_sessionIdFromCookie env headers c cfg h
+
+example : Code.getSessionIDFromCookie {} [(B "cookie", B "a=1; __Host-authservice-session-id-cookie=s1; b=2")] {} = .ok (B "s1") := by decide
+example : Code.generateSetCookieHeader {} (B "n") (B "v") 0 = .ok (B "n=v; HttpOnly; Secure; SameSite=Lax; Path=/; Max-Age=0") := by decide
+
 end AuthProps.C05
 
 #print axioms AuthProps.C05.redirect_renews
@@ -69,3 +107,6 @@ end AuthProps.C05
 #print axioms AuthProps.C05.directives_match_source
 #print axioms AuthProps.C05.name_parts_match_source
 #print axioms AuthProps.C05.logout_expires_cookie
+#print axioms AuthProps.C05.code_cookie_name_host_prefix
+#print axioms AuthProps.C05.code_set_cookie_shape
+#print axioms AuthProps.C05.code_session_id_from_cookie
